@@ -86,8 +86,45 @@ class Ctx:
 _MOD = None
 
 
+_CONST_SNAPSHOT = None
+
+
+def _module_constants():
+    """Module-level numpy arrays of distance3d (BOX_COORDS, RECTANGLE_COORDS, ALL_TRUE, ...): shared state every call reads."""
+    import numpy as np
+    out = {}
+    for name, mod in list(sys.modules.items()):
+        if name.startswith("distance3d") and mod is not None:
+            for k, v in list(vars(mod).items()):
+                if isinstance(v, np.ndarray) and k.isupper():
+                    out[name + "." + k] = v
+    return out
+
+
+def _check_module_constants(r):
+    """Invariant on every explored state: no library call writes to a module-level array (a scratch buffer hoisted to module
+    scope would make results history dependent; compiled code freezes globals, so only the interpreted mode would show it)."""
+    global _CONST_SNAPSHOT
+    import numpy as np
+    cur = _module_constants()
+    if _CONST_SNAPSHOT is None:
+        _CONST_SNAPSHOT = {k: (v, v.copy()) for k, v in cur.items()}
+        return
+    for k, (obj, val) in list(_CONST_SNAPSHOT.items()):
+        now = cur.get(k)
+        if now is None or now.shape != val.shape or not np.array_equal(now, val):
+            r.setdefault("viol", []).append({"kind": "module_constant_mutated", "entry": k, "sig": "module_constant_mutated:" + k,
+                                             "detail": {"before": val, "after": now}})
+            _CONST_SNAPSHOT[k] = (now, now.copy()) if now is not None else (obj, val)
+    for k, v in cur.items():
+        if k not in _CONST_SNAPSHOT:
+            _CONST_SNAPSHOT[k] = (v, v.copy())
+
+
 def _run_one(desc):
     t0 = time.time()
+    if _CONST_SNAPSHOT is None:
+        _check_module_constants({})
     try:
         r = _MOD.run_state(desc)
     except Exception as e:  # neither a harness bug nor an unguarded library exception may masquerade as a pass or crash the run:
@@ -97,6 +134,7 @@ def _run_one(desc):
         r = {"viol": [{"kind": "uncaught_exception:" + type(e).__name__, "entry": "run_state",
                        "sig": "run_state:uncaught_exception:" + type(e).__name__,
                        "detail": {"exc": repr(e)[:300], "raised_in": where[0][:300], "traceback_tail": tb[-6:]}}], "n_eval": 1}
+    _check_module_constants(r)
     r["_t"] = time.time() - t0
     return r
 
